@@ -213,8 +213,8 @@ def finish(mod, pid, tier, seed, merged, wall):
         replay_paths.append(rp)
         lines.append("VIOLATION property=%s replay=%s sig=%s backend=%s :: %s" % (
             pid, rp, v["sig"], v.get("backend"), str(v["detail"])[:300]))
-    for key, n in sorted(kf_counts.items()):
-        print("KNOWN-FINDING: property=%s %s [%s] (%d cases this run)" % (pid, open_keys[key]["what"], key, n))
+    for key in sorted(open_keys):
+        print("KNOWN-FINDING: property=%s %s [%s] (%d cases this run)" % (pid, open_keys[key]["what"], key, kf_counts.get(key, 0)))
     min_dec = getattr(mod, "MIN_DECISIVE", {})
     undecided = [c for c, n in min_dec.items() if merged["clauses"].get(c, 0) < n]
     status = "held"
